@@ -63,7 +63,7 @@ def chn_consts(**kw):
 
 
 def design_jobs(quick):
-    """(name, module, consts, invariants, expect_violation or None, workers)"""
+    """(name, module, consts, invariants, expect_violation or None, workers[, (num, depth) for -simulate])"""
     J = []
     # transactional TCP mailbox
     J.append(("TCPMailbox 1 sender deep", "TCPMailbox", tcp_consts(MaxSeq=3 if quick else 5), TCP_INV, None, 3))
@@ -78,6 +78,9 @@ def design_jobs(quick):
     if not quick:
         J.append(("TCPMailbox commit time-out + resend (outside the statement; duplicate expected)", "TCPMailbox",
                   tcp_consts(CommitTO=True), TCP_INV, "FIFO", 2))
+    if not quick:
+        J.append(("TCPMailbox 3 senders, free-mode simulation (40000 behaviours, depth 90)", "TCPMailbox",
+                  tcp_consts(NS=3, Cap=2, MaxSeq=4, MaxMsg=3, MaxRd=3, MaxConn=3), TCP_INV, None, 6, (40000, 90)))
     # relaxed mailbox
     if not quick:
         J.append(("RelaxedMailbox no write time-out, 2 senders", "RelaxedMailbox",
@@ -257,16 +260,20 @@ def run(chk):
         jobs = design_jobs(quick)
 
         def one(job):
-            name, module, consts, inv, expect, workers = job
+            name, module, consts, inv, expect, workers = job[:6]
             w = os.path.join(chk.tmp, "mc-" + re.sub(r"\W+", "_", name)[:60])
             V.copy_specs(work, w)
             write_cfg(os.path.join(w, "MC.cfg"), consts, inv)
+            if len(job) > 6:
+                return job, V.tlc(w, module, cfg="MC.cfg", workers=workers, timeout=2400, deadlock=False,
+                                  simulate="num=%d" % job[6][0], depth=job[6][1], seed=chk.seed)
             return job, V.tlc(w, module, cfg="MC.cfg", workers=workers, timeout=900 if quick else 2400, deadlock=False)
 
         with concurrent.futures.ThreadPoolExecutor(max_workers=8) as ex:
             results = list(ex.map(one, jobs))
         rejected = []
-        for (name, module, consts, inv, expect, workers), res in results:
+        for job, res in results:
+            name, module, consts, inv, expect, workers = job[:6]
             if expect is None:
                 chk.add_tlc(name, res)
             else:
